@@ -435,16 +435,37 @@ impl TargetsEditor {
             },
             signatures: role.signatures.clone(),
         };
-        let (keyids, key_pairs) = if let Some(keys) = keys {
+        let (keyids, key_pairs): (Vec<Decoded<Hex>>, _) = if let Some(keys) = keys {
             (keys.keys().cloned().collect(), keys)
         } else {
             let key_pairs = role
                 .signed
                 .delegations
+                .as_ref()
                 .context(error::NoDelegationsSnafu)?
-                .keys;
+                .keys
+                .clone();
             (key_pairs.keys().cloned().collect(), key_pairs)
         };
+
+        // The metadata must be signed by a threshold of the keys the role is being delegated to;
+        // otherwise this repository would be signed and published with a role that no client
+        // accepts.
+        Delegations {
+            keys: key_pairs.clone(),
+            roles: vec![DelegatedRole {
+                name: name.to_string(),
+                keyids: keyids.clone(),
+                threshold,
+                paths: paths.clone(),
+                terminating: false,
+                targets: None,
+            }],
+        }
+        .verify_role(&role, name)
+        .context(error::VerifyRoleMetadataSnafu {
+            role: name.to_string(),
+        })?;
 
         self.delegate_role(delegated_targets, paths, key_pairs, keyids, threshold)?;
 
